@@ -106,12 +106,11 @@ def run(rep):
                 rep.violation('%s: %s (the pinned model does not predict this)' % (c['type'], why), rp)
         diffs = corp.correspondence(proj)
         badset = {ci for ci, _, _ in bad}
-        for ci, oi in diffs[:5]:
-            if ci not in badset:
-                c = corp.cases[ci]
-                rep.violation('implementation and faithful model disagree on the outcome class of an operation on %s' % c['type'],
-                              {'correspondence': 'impl<->M_py (C19 projection)', 'type': c['type'], 'ops': c['ops'][:oi + 1],
-                               'impl': proj(None, corp.impl[ci][oi]), 'model': proj(None, corp.model[ci][oi])}, found_input=False)
+        broken = [(ci, oi) for ci, oi in diffs if ci not in badset][:6]
+        if broken:
+            matcher.report_broken_correspondence(rep, corp.m, [(corp.cases[ci]['type'], corp.cases[ci]['ops'][:oi + 1]) for ci, oi in broken], sweep_failures,
+                                                 'impl<->M_py (C19 projection)',
+                                                 [{'impl': proj(None, corp.impl[ci][oi]), 'model': proj(None, corp.model[ci][oi])} for ci, oi in broken])
         ncls, ncalls = class_sweep(rep)
         corp.coverage({'operations_classified': sum(len(r) for r in corp.impl), 'classes_swept': ncls, 'class_calls': ncalls,
                        'impl_model_differences': len(diffs)})
